@@ -138,6 +138,10 @@ func init() {
 			g.Static = append(g.Static, writeBeforeRead(env, g, "C14")...)
 			g.Static = append(g.Static, globalWrites(env, reach, "C14")...)
 			g.Static = append(g.Static, boundedC14Filter(env))
+			// every output mode reads the input itself: the reader is consumed once per run
+			if fn := env.Prog.Func("cmd/aa-log", "aaLog"); fn != nil {
+				g.Static = append(g.Static, frame.ConsumedOnce(env.Prog, fn, []string{"pkg/logs.New", "pkg/logs.GetApparmorLogs"}))
+			}
 			// "reports nothing that is not in the input": no value is interpreted as a format
 			g.Static = append(g.Static, frame.ConstantFormats(env.Prog, reach))
 			g.Unverified = []string{
@@ -348,6 +352,10 @@ func init() {
 			pfReach := frame.ReachableExcept(env.Prog, perFile, nil, extra)
 			g.Static = append(g.Static, globalWrites(env, pfReach, "C02")...)
 			g.Static = append(g.Static, guardedState(env, g, perFile, extra, "C02")...)
+			// every directive of a file is applied, in order, to the text produced so far
+			if fn := env.Prog.Func("pkg/prebuild/directive", "Run"); fn != nil {
+				g.Static = append(g.Static, frame.DirectiveRunShape(env.Prog, fn))
+			}
 			g.Static = append(g.Static, boundedC07Exec(env))
 			g.Static = append(g.Static, boundedC07Stack(env))
 			g.Unverified = []string{
